@@ -380,7 +380,7 @@ def h_sphinx(ctx, cfg):
         obj = _util.safe_get(obj, object(), type(parent))
     try:
         sig = sigtools.signature(obj).evaluated()
-    except (TypeError, ValueError):
+    except (TypeError, ValueError, AttributeError):
         ctx.require('hook-passes-through-when-no-signature', ret == ('(orig)', 'origret'), info)
         return
     want_ret = '' if sig.return_annotation is sig.empty else repr(sig.return_annotation)
